@@ -84,7 +84,9 @@ pub fn strategy() -> impl Strategy<Value = Case> {
 pub fn run(run: &Run) {
     run.rule(
         "cases = (constructor, u64 input with input/unit-per-second < 2^32): enumerated boundaries (0, unit multiples +-1, powers of two +-1, \
-         largest admissible values) then uniform / log-uniform / (seconds, remainder) random inputs; non-trivial = sub-second part != 0 and \
+         largest admissible values); the first and last 8 sub-second values of 1.2 M whole-second counts; 65536 inputs on either side of every \
+         multiple (x1..x130) of every power of two 2^24..2^52; every input below 2^26 (thorough: from_ms over its WHOLE domain of 2^32*1000 \
+         inputs, from_us below 2^36); then uniform / log-uniform / (seconds, remainder) random inputs; non-trivial = sub-second part != 0 and \
          whole seconds != 0; distinct by (constructor, input)",
     );
     run.assume("oracle: seconds*10^6 + microseconds == input expressed in microseconds, computed in u128; overflow checks are on in the build");
@@ -110,6 +112,97 @@ pub fn run(run: &Run) {
             Err(v) => r.violation = Some((json!(c), v)),
         }
         r
+    });
+    // dense ranges: the fast oracle (the statement's equation in u64) over a whole range under one panic guard; a range
+    // that fails is re-walked input by input with the full check to name the first failing input
+    let sweep = |unit: u64, from: u64, to: u64, rep: &mut BlockReport| {
+        let max = (1u64 << 32) * unit - 1;
+        let to = to.min(max);
+        if from > to {
+            return;
+        }
+        let factor = 1_000_000 / unit;
+        let ok = guard(|| {
+            let mut good = true;
+            let mut x = from;
+            loop {
+                let ts = if unit == 1000 { DltTimeStamp::from_ms(x) } else { DltTimeStamp::from_us(x) };
+                good &= ts.seconds as u64 * 1_000_000 + ts.microseconds as u64 == x * factor && ts.microseconds < 1_000_000;
+                if x == to {
+                    break;
+                }
+                x += 1;
+            }
+            good
+        });
+        rep.evaluations += to - from + 1;
+        rep.nontrivial += to - from + 1;
+        if !matches!(ok, Ok(true)) && rep.violation.is_none() {
+            let mut x = from;
+            loop {
+                let c = Case { unit, x };
+                if let Err(v) = check(&c) {
+                    rep.violation = Some((json!(c), v));
+                    break;
+                }
+                if x == to {
+                    break;
+                }
+                x += 1;
+            }
+        }
+    };
+    // (1) the edges of every second: all whole-second counts up to 200 000 and 2^20 counts spread over the whole range,
+    //     each with the first and last 8 sub-second values
+    run.enumerate("second-edges", 2 * 1249, false, |b| {
+        let mut rep = BlockReport::default();
+        let unit = if b % 2 == 0 { 1000u64 } else { 1_000_000 };
+        let blk = b / 2;
+        let seconds: Vec<u64> = if blk < 200 { (blk * 1000..(blk + 1) * 1000).collect() } else { ((blk - 200) * 1000..(blk - 199) * 1000).map(|i| (i * 4093 + (i >> 3)) % (1 << 32)).collect() };
+        for s in seconds {
+            sweep(unit, s * unit, s * unit + 7, &mut rep);
+            sweep(unit, s * unit + unit - 8, s * unit + unit - 1, &mut rep);
+        }
+        if b == 7 {
+            rep.sample = Some(json!({"unit": unit, "seconds": "7000..7999", "sub-second": "0..7 and unit-8..unit-1"}));
+        }
+        rep
+    });
+    // (2) carry boundaries of multi-word arithmetic: 65536 inputs on either side of every multiple (x1..x130) of every
+    //     power of two 2^24 .. 2^52
+    run.enumerate("word-boundaries", 2 * 29 * 130, false, |b| {
+        let mut rep = BlockReport::default();
+        let unit = if b % 2 == 0 { 1000u64 } else { 1_000_000 };
+        let p = 24 + (b / 2) % 29;
+        let k = 1 + (b / 2) / 29;
+        if let Some(centre) = (1u64 << p).checked_mul(k) {
+            if centre / unit < (1 << 32) {
+                sweep(unit, centre - 65536, centre + 65536, &mut rep);
+            }
+        }
+        if b == 11 {
+            rep.sample = Some(json!({"unit": unit, "centre": format!("{} * 2^{}", k, p), "range": "+-65536"}));
+        }
+        rep
+    });
+    // (3) whole ranges: quick = every input below 2^26; thorough = from_ms over its WHOLE domain (2^32 * 1000 inputs) and
+    //     from_us below 2^36
+    let (ms_blocks, us_blocks, block) = match run.tier {
+        Tier::Quick => (1u64, 1u64, 1u64 << 26),
+        Tier::Thorough => (((1u64 << 32) * 1000).div_ceil(1 << 28), 1 << 8, 1 << 28),
+    };
+    run.enumerate("dense-from_ms", ms_blocks, run.tier == Tier::Thorough, |b| {
+        let mut rep = BlockReport::default();
+        sweep(1000, b * block, (b + 1) * block - 1, &mut rep);
+        if b == 0 {
+            rep.sample = Some(json!({"unit": 1000, "range": format!("{}..{}", b * block, (b + 1) * block)}));
+        }
+        rep
+    });
+    run.enumerate("dense-from_us", us_blocks, false, |b| {
+        let mut rep = BlockReport::default();
+        sweep(1_000_000, b * block, (b + 1) * block - 1, &mut rep);
+        rep
     });
     run.random("random", run.cases(2_000_000, 40_000_000), 0.5, strategy, check);
 }
